@@ -2,6 +2,7 @@
 (* Validates recorded literal evaluations against Lexing.tla (C16).           *)
 (*  {id, act:"str", style, body:[cps], names:[[name cps, cp]..], kind:"value"|"error"|"other", v:[cps]} *)
 (*  {id, act:"quote", style, v:[cps], back_kind, back:[cps]}   Quote(v) parsed by the real engine       *)
+(*  {id, act:"num2", t1, t2: numeral texts [cps], k1, k2: "int"|"float"|"other", limbs1, limbs2, fok1, fok2}       *)
 (*  {id, act:"int", digits:[0-9 values], kind, limbs:[..]}                                               *)
 (*  {id, act:"kw", word, dunder, got}                                                                      *)
 EXTENDS Lexing, Json, IOUtils
@@ -27,6 +28,17 @@ Verdict(e) ==
             IF e.sp1 # Quote(e.v1, e.style1) \/ e.sp2 # Quote(e.v2, e.style2) THEN "harness-spelling-differs-from-Quote"
             ELSE IF ~(e.ok = 1 /\ e.back1 = e.v1 /\ e.back2 = e.v2) THEN "two-literals-do-not-read-back"
             ELSE "ok"
+      [] e.act = "num2" ->
+            \* two numerals, in one expression or in two statements of one engine (the first still held): each denotes what it
+            \* spells - an integer without a point, a float with one (the float's value is checked against the environment: fok)
+            LET Kind(t) == IF \E i \in 1..Len(t) : t[i] = 46 THEN "float" ELSE "int"
+                Digits(t) == [i \in 1..Len(t) |-> t[i] - 48]
+                Ok(t, k, limbs, fok) == /\ k = Kind(t)
+                                        /\ (k = "int" => limbs = IntLiteral(Digits(t)))
+                                        /\ (k = "float" => fok = 1)
+            IN IF ~Ok(e.t1, e.k1, e.limbs1, e.fok1) THEN "numeral-denotes-another-number"
+               ELSE IF ~Ok(e.t2, e.k2, e.limbs2, e.fok2) THEN "numeral-denotes-another-number"
+               ELSE "ok"
       [] e.act = "int" ->
             IF e.kind # "int" THEN "integer-literal-kind"
             ELSE IF e.limbs # IntLiteral(e.digits) THEN "integer-literal-value" ELSE "ok"
